@@ -86,4 +86,130 @@ SeqInv(q) == \A i, j \in DOMAIN q : i # j => PairOK(q[i], q[j])
 
 CloseOK(snaps) == AsFinal(snaps).res # "panic"
 
+(***************************************************************************)
+(* Part 2 (C20): round transitions of a chain.                             *)
+(*                                                                         *)
+(* Chains are 1..NC (a parameter of the operators).  A round REFERENCE is  *)
+(* a record [k, c, n]:                                                     *)
+(*    k = "F": the hash of final round n of chain c (known to the store    *)
+(*             exactly when n < num[c]; otherwise an unknown hash),        *)
+(*    k = "H": the identifier of chain c itself.  The store keeps the HEAD *)
+(*             round of a chain under that key (badger_round.go writeRound *)
+(*             (txn, node, ...)), so ReadRound finds a record: NodeId = c, *)
+(*             Number = head number, Timestamp = 0, Hash = c,              *)
+(*    k = "U": a hash the store has never seen.                            *)
+(* Graph state G:                                                          *)
+(*    num[c]   number of the head (cache) round, final rounds are 0..num-1 *)
+(*    ext[c]   external reference of the head round                        *)
+(*    has[c]   the head round holds at least one snapshot                  *)
+(*    dl[c][x] durable link LINK/<c,x>, ml[c][x] ChainState.RoundLinks     *)
+(***************************************************************************)
+
+FRef(c, n) == [k |-> "F", c |-> c, n |-> n]
+HRef(c)    == [k |-> "H", c |-> c, n |-> 0]
+URef       == [k |-> "U", c |-> 0, n |-> 0]
+
+\* persistStore.ReadRound(reference)
+Lookup(G, r) ==
+    IF r.k = "F" /\ r.c \in DOMAIN G.num /\ r.n < G.num[r.c]
+      THEN [found |-> TRUE, node |-> r.c, number |-> r.n, head |-> FALSE]
+    ELSE IF r.k = "H" /\ r.c \in DOMAIN G.num
+      THEN [found |-> TRUE, node |-> r.c, number |-> G.num[r.c], head |-> TRUE]
+    ELSE [found |-> FALSE, node |-> 0, number |-> 0, head |-> FALSE]
+
+\* Chain.updateExternal(final, external, roundTime, strict) -> TRUE when it returns nil.
+\* early: roundTime is before the start of the referenced final round.
+\* The "too early against the best round" test needs final rounds more than 5 hours apart and is
+\* outside the explored time window - except for a head record, whose start is 0.
+ExternalOK(G, c, e, early, strict) ==
+    /\ e.node # c
+    /\ e.number >= G.ml[c][e.node]
+    /\ strict => /\ ~e.head       \* start 0: always "too early" against the best available round
+                 /\ ~early
+                 /\ ~(~G.has[e.node] /\ G.num[e.node] = e.number + 1 /\ e.number > 0)
+
+SetExt(G, c, r, e) ==
+    [G EXCEPT !.ext[c] = r, !.dl[c][e.node] = e.number, !.ml[c][e.node] = e.number]
+
+\* startNewRoundAndPersist(cache, references, timestamp, finalized)
+\*   o = [c, self, ext, early, fin]; self in {"good" (hash of the closed head round), "stale", "bogus"}
+\* result [res, dummy, G]
+StartRound(G, o) ==
+    LET c == o.c
+        e == Lookup(G, o.ext)
+        fail == [res |-> "err", dummy |-> FALSE, G |-> G]
+        adv(H) == [H EXCEPT !.num[c] = @ + 1, !.has[c] = FALSE]
+    IN
+    IF ~G.has[c] THEN fail                         \* nothing collected: asFinal() = nil
+    ELSE IF o.self # "good" THEN fail
+    ELSE IF ~e.found THEN
+         IF o.fin THEN [res |-> "ok", dummy |-> TRUE, G |-> adv(G)]     \* keeps the previous external
+         ELSE fail
+    ELSE IF ~ExternalOK(G, c, e, o.early, ~o.fin) THEN fail
+    ELSE [res |-> "ok", dummy |-> FALSE, G |-> adv(SetExt(G, c, o.ext, e))]
+
+\* updateEmptyHeadRoundAndPersist(final, cache, references, timestamp, strict)
+\*   o = [c, self, ext, early, strict]; self in {"same", "other"}
+UpdateHead(G, o) ==
+    LET c == o.c
+        e == Lookup(G, o.ext)
+        fail == [res |-> "err", dummy |-> FALSE, G |-> G]
+    IN
+    IF G.has[c] THEN fail
+    ELSE IF o.self # "same" THEN fail
+    ELSE IF ~e.found THEN fail
+    ELSE IF ~ExternalOK(G, c, e, o.early, o.strict) THEN fail
+    ELSE [res |-> "ok", dummy |-> FALSE, G |-> SetExt(G, c, o.ext, e)]
+
+\* a snapshot finalized into the head round (Chain.AddSnapshot)
+AddSnap(G, c) == [G EXCEPT !.has[c] = TRUE]
+
+ApplyOp(G, o) ==
+    CASE o.op = "Start"  -> StartRound(G, o)
+      [] o.op = "Update" -> UpdateHead(G, o)
+      [] o.op = "Add"    -> [res |-> "ok", dummy |-> FALSE, G |-> AddSnap(G, o.c)]
+
+(***************************************************************************)
+(* Property C20, as a predicate on one observed step of chain o.c:          *)
+(* G before, result, G2 after.                                              *)
+(***************************************************************************)
+KnownFinalOther(G, c, r) == r.k = "F" /\ r.c \in DOMAIN G.num /\ r.c # c /\ r.n < G.num[r.c]
+
+LinksForward(G, G2, c) ==
+    \A x \in DOMAIN G.num : G2.dl[c][x] >= G.dl[c][x] /\ G2.ml[c][x] >= G.ml[c][x]
+
+\* selfOK: the new head's self reference is the hash of the round just closed (observed)
+StepOK20(G, o, res, selfOK, G2) ==
+    LET c == o.c IN
+    CASE o.op = "Start" ->
+           IF res = "ok"
+           THEN /\ G2.num[c] = G.num[c] + 1
+                /\ selfOK
+                /\ KnownFinalOther(G, c, G2.ext[c])
+                /\ LinksForward(G, G2, c)
+           ELSE G2 = G
+      [] o.op = "Update" ->
+           IF res = "ok"
+           THEN /\ G2.num[c] = G.num[c]
+                /\ KnownFinalOther(G, c, G2.ext[c])
+                /\ LinksForward(G, G2, c)
+           ELSE G2 = G
+      [] OTHER -> TRUE
+
+\* the reference of the head round of every chain other than those never moved:
+\* a known final round of another chain, and the links agree with it
+StateOK20(G) ==
+    \A c \in DOMAIN G.num :
+        /\ KnownFinalOther(G, c, G.ext[c])
+        /\ \A x \in DOMAIN G.num : G.dl[c][x] = G.ml[c][x]
+
+(***************************************************************************)
+(* Known finding C20-1 (listed in known_findings.json): a reference that is *)
+(* a chain identifier is resolved to that chain's HEAD round record and is  *)
+(* accepted; the new head then references a round that is not final and the *)
+(* link is set to the head number.  Signature: the head's external          *)
+(* reference after the step is a chain identifier.                          *)
+(***************************************************************************)
+KnownFinding_C20_1(G2, c) == G2.ext[c].k = "H"
+
 =============================================================================
